@@ -410,6 +410,17 @@ impl Model for C15Model {
                         }
                     }
                 }
+                // ... and a request that waits at the proxy stays until a
+                // signer response answers it (then it is a waiting response)
+                if let Some(had) = c["open_requests"].as_object() {
+                    for k in had.keys() {
+                        let still = is.get(name).and_then(|n| n["open_requests"].get(k)).is_some();
+                        let answered = is.get(name).and_then(|n| n["open_responses"].get(k)).is_some();
+                        if !still && !answered {
+                            v.push(("request-vanished".into(), format!("the request of child {name} for key {k} that the proxy had accepted is gone from the proxy after {} without having been answered", op.compact())));
+                        }
+                    }
+                }
             }
         }
         // the reference's view of the open request agrees with the proxy
